@@ -402,8 +402,14 @@ def _time(ctx, repo, tm):
         DIFF = next(iter(diffs))
         ep = DIFF[3]
         epoch = None
-        if isinstance(ep, tuple) and ep[0] == "call" and sym.show(ep[1]).endswith("datetime") and not ep[3]:
-            epoch = tuple(ep[2])
+        if isinstance(ep, tuple) and ep[0] == "call" and sym.show(ep[1]).endswith("datetime"):
+            # datetime(1900, 1, 1) / datetime(year=1900, month=1, day=1): positional fields first, the named ones in their slot
+            order = ("year", "month", "day", "hour", "minute", "second", "microsecond")
+            kw_ = dict(ep[3])
+            if all(k in order[len(ep[2]):] for k in kw_):
+                epoch = tuple(ep[2]) + tuple(kw_.get(k, 0) for k in order[len(ep[2]):])
+                while len(epoch) > 3 and epoch[-1] == 0 and len(epoch) > len(ep[2]):
+                    epoch = epoch[:-1]
         ok = epoch is not None and len(epoch) >= 3 and epoch[:3] == (1900, 1, 1) and all(v == 0 for v in epoch[3:])
         ctx.decide(ok, "R-TABLE/time-epoch", construct, tt.where(fn), "epoch is 1900-01-01T00:00:00",
                    f"epoch is {sym.show(ep)}, RFC 6733 Time counts seconds since 1900-01-01 00:00:00", key="epoch")
